@@ -172,11 +172,11 @@ Qed.
 Theorem server_accept_implies_checks_gen :
   forall bind chk s v, server12_gen bind chk s v = Accept -> server_required s v = true.
 Proof.
-  intros bind chk [p hvpc hvc] [su cke cg cp cvm sa cvv chv vpc vc fa fv cmsg fk bl].
+  intros bind chk [p hvpc hvc] [su cke cg cp cvm sa cvv chv vpc vc fa fv cmsg fk pne pkn bl].
   unfold server12_gen, server12_certs_with, server12_policy, server12_vc, server_required, cl_pop.
   cbn [sc_policy sc_has_vpc sc_has_vc cl_suite cl_cke_msg cl_certs_given cl_cert_parses cl_cv_msg
        cl_scheme_allowed cl_cv_valid cl_chain_valid cl_vpc_ok cl_vc_ok cl_fin_arrives cl_fin_valid
-       cl_cert_msg cl_scheme_fits_key cl_signed_by_leaf].
+       cl_cert_msg cl_scheme_fits_key cl_signed_by_leaf cl_psk_nonempty cl_peer_knows_psk].
   intros H. apply wait_unless_accept in H. destruct H as [Hcke H].
   apply andthen_accept in H. destruct H as [Hc H].
   apply wait_unless_accept in H. destruct H as [Hfa H].
@@ -197,9 +197,15 @@ Theorem server_accept_implies_checks_with :
   forall chk s v, server12_with chk s v = Accept -> server_required s v = true.
 Proof. intros chk s v. apply server_accept_implies_checks_gen. Qed.
 
+Lemma server12_inv :
+  forall s v, server12 s v = Accept ->
+    server12_psk_gate psk_refuses_empty_key verify_binds_scheme_to_key s v = Accept /\
+    server12_with server12_checks_client_finished s v = Accept.
+Proof. intros s v H. unfold server12, server12_all in H. apply andthen_accept in H. exact H. Qed.
+
 Theorem server_accept_implies_checks :
   forall s v, server12 s v = Accept -> server_required s v = true.
-Proof. intros s v. apply server_accept_implies_checks_with. Qed.
+Proof. intros s v H. apply server12_inv in H. destruct H as [_ H]. revert H. apply server_accept_implies_checks_with. Qed.
 
 (* per ClientAuth value (suites that authenticate: the policy switch is skipped only for anonymous suites) *)
 Corollary server_accept_policy :
@@ -247,7 +253,7 @@ Qed.
    the verdict does not depend on it (F5; consequences for transcript integrity in Hs/C04TranscriptSound) *)
 Theorem server12_ignores_client_verify_data :
   forall s v b, server12_with false s v = server12_with false s (cl_with_fin_valid v b).
-Proof. intros s [su cke cg cp cvm sa cvv chv vpc vc fa fv cmsg fk bl] b. reflexivity. Qed.
+Proof. intros s [su cke cg cp cvm sa cvv chv vpc vc fa fv cmsg fk pne pkn bl] b. reflexivity. Qed.
 
 Theorem server12_fixed_checks_client_verify_data :
   forall s v, server12_with true s v = Accept -> cl_fin_valid v = true.
@@ -262,9 +268,10 @@ Qed.
 
 Theorem server_accept_binds_signature :
   forall chk s v, sig_sound_c v -> server12_gen true chk s v = Accept -> cl_certs_given v = true ->
+    is_psk (cl_suite v) = false ->
     cl_scheme_fits_key v = true /\ cl_signed_by_leaf v = true /\ server_credential s v = true.
 Proof.
-  intros chk s v Hsound Ha Hg.
+  intros chk s v Hsound Ha Hg Hnp.
   assert (Hr := server_accept_implies_checks_gen true chk s v Ha).
   unfold server12_gen in Ha. apply wait_unless_accept in Ha. destruct Ha as [_ Ha].
   apply andthen_accept in Ha. destruct Ha as [Ha _].
@@ -275,13 +282,13 @@ Proof.
   destruct (cl_scheme_fits_key v) eqn:Hfit; cbn in Ha; [|discriminate Ha].
   destruct (cl_cv_valid v) eqn:Hsig; cbn in Ha; [|discriminate Ha].
   assert (Hl := Hsound Hfit Hsig).
-  repeat split; auto. unfold server_credential. rewrite Hr, Hfit, Hl, Hg. reflexivity.
+  repeat split; auto. unfold server_credential. rewrite Hr, Hfit, Hl, Hg, Hnp. reflexivity.
 Qed.
 
 Definition f45_scfg : scfg := mk_scfg RequireAndVerifyClientCert false false.
 Definition f45_cview : cview :=
   mk_cview SCert true true true true true true (* the ECDSA routine accepts *) true true true true true
-           true false (* scheme does not fit the key *) false (* not by the leaf key *).
+           true false (* scheme does not fit the key *) true true false (* not by the leaf key *).
 
 Theorem server_scheme_confusion_refuted :
   exists s v, sig_sound_c v /\ sc_policy s = RequireAndVerifyClientCert /\ cl_chain_valid v = true /\
@@ -323,7 +330,7 @@ Qed.
 Definition f46_scfg : scfg := mk_scfg RequireAndVerifyClientCert false false.
 Definition f46_view1 : cview :=
   mk_cview SCert true false (* no certificate *) false false false false false false false
-           false (* Finished never arrives *) false false (* no Certificate message *) false false.
+           false (* Finished never arrives *) false false (* no Certificate message *) false true true false.
 
 Theorem refused_client_resumes_refuted :
   exists s v1, sc_policy s = RequireAndVerifyClientCert /\ cl_certs_given v1 = false /\
@@ -359,17 +366,143 @@ Proof.
     intros v2. destruct verify_binds_scheme_to_key, server12_checks_client_finished; reflexivity.
 Qed.
 
+(* ================================================================ B: server-name forms (DTLS 1.2 client) *)
+
+Definition ipname_ccfg : ccfg := mk_ccfg false false false false true (* ServerName is an IP literal *).
+Definition ipname_sview : sview :=
+  mk_sview SCert true true true true true true true false (* not valid for the configured IP *) true true true true
+           true true true true true true.
+
+Theorem client_ip_name_refuted :
+  exists c v, cc_name_is_ip c = true /\ cc_skip_verify c = false /\ sv_suite v = SCert /\ sv_name_ok v = false /\
+    (forall bind, client12_gen false bind c v = Accept) /\ client_required c v = false /\
+    (forall bind, client12_gen true bind c v = Reject a_bad_certificate).
+Proof.
+  exists ipname_ccfg, ipname_sview.
+  split; [reflexivity|]. split; [reflexivity|]. split; [reflexivity|]. split; [reflexivity|].
+  split; [intros [|]; reflexivity|]. split; [reflexivity|]. intros [|]; reflexivity.
+Qed.
+
+Theorem server_name_as_coded :
+  if client_verifies_ip_literal_name
+  then forall c v, client12 c v = Accept -> sv_suite v = SCert -> cc_skip_verify c = false -> sv_name_ok v = true
+  else exists c v, cc_name_is_ip c = true /\ cc_skip_verify c = false /\ sv_suite v = SCert /\
+         client12 c v = Accept /\ sv_name_ok v = false.
+Proof.
+  unfold client12, client12_all. destruct client_verifies_ip_literal_name.
+  - intros c v H Hs Hk. apply andthen_accept in H. destruct H as [_ H].
+    apply client_accept_implies_checks_gen in H. unfold client_required, sv_x509_ok in H. rewrite Hs, Hk in H.
+    cbn [is_cert orb] in H.
+    destruct (sv_name_ok v); [reflexivity|]. rewrite ?andb_false_r in H. cbn in H. rewrite ?andb_false_r in H.
+    cbn in H. discriminate H.
+  - exists ipname_ccfg, ipname_sview. split; [reflexivity|]. split; [reflexivity|]. split; [reflexivity|].
+    split; [destruct psk_refuses_empty_key, verify_binds_scheme_to_key; reflexivity|reflexivity].
+Qed.
+
+(* ================================================================ C: an empty pre-shared key *)
+
+Theorem client_accept_psk_binds :
+  forall bind c v, psk_sound_s v -> client12_all true true bind c v = Accept -> cc_psk_cb c = true ->
+    sv_psk_nonempty v = true /\ sv_peer_knows_psk v = true.
+Proof.
+  intros bind c v Hsound H Hcb. unfold client12_all in H. apply andthen_accept in H. destruct H as [Hg H].
+  assert (Hr := client_accept_implies_checks_gen bind c v H).
+  unfold client12_gen in H. apply andthen_accept in H. destruct H as [H3 _].
+  unfold client12_psk_gate in Hg. rewrite Hcb, H3 in Hg. cbn in Hg. apply check_accept in Hg.
+  unfold client_required in Hr.
+  repeat (apply andb_true_iff in Hr; destruct Hr as [Hr ?]).
+  split; auto.
+Qed.
+
+Definition emptypsk_ccfg : ccfg := mk_ccfg false false false true (* PSK callback *) false.
+Definition emptypsk_sview : sview :=
+  mk_sview SPsk false false false true false false false false false false true true
+           true true (* the Finished opens and verifies: both sides used the empty key *)
+           false false (* the callback returned an empty key *) false (* the peer knows no key *) false.
+
+Theorem client_empty_psk_refuted :
+  exists c v, psk_sound_s v /\ cc_psk_cb c = true /\ is_psk (sv_suite v) = true /\
+    (forall ipname bind, client12_all false ipname bind c v = Accept) /\
+    sv_psk_nonempty v = false /\ sv_peer_knows_psk v = false /\ client_credential c v = false /\
+    (forall ipname bind, client12_all true ipname bind c v = Reject 80).
+Proof.
+  exists emptypsk_ccfg, emptypsk_sview.
+  split; [intros H; discriminate H|]. split; [reflexivity|]. split; [reflexivity|].
+  split; [intros [|] [|]; reflexivity|]. split; [reflexivity|]. split; [reflexivity|]. split; [reflexivity|].
+  intros [|] [|]; reflexivity.
+Qed.
+
+Theorem server_accept_psk_binds :
+  forall bind chk s v, psk_sound_c v -> server12_all true bind chk s v = Accept -> is_psk (cl_suite v) = true ->
+    cl_psk_nonempty v = true /\ cl_peer_knows_psk v = true.
+Proof.
+  intros bind chk s v Hsound H Hp. unfold server12_all in H. apply andthen_accept in H. destruct H as [Hg H].
+  assert (Hr := server_accept_implies_checks_gen bind chk s v H).
+  unfold server12_gen in H. apply wait_unless_accept in H. destruct H as [Hcke H].
+  apply andthen_accept in H. destruct H as [Hc _].
+  unfold server12_psk_gate in Hg. apply negb_false_iff in Hcke. rewrite Hcke, Hc, Hp in Hg. cbn in Hg.
+  apply check_accept in Hg. unfold server_required in Hr.
+  repeat (apply andb_true_iff in Hr; destruct Hr as [Hr ?]).
+  split; auto.
+Qed.
+
+Definition emptypsk_scfg : scfg := mk_scfg NoClientCert false false.
+Definition emptypsk_cview : cview :=
+  mk_cview SPsk true false false false false false false true true true true false false
+           false (* the lookup of the unknown identity returned an empty key *) false false.
+
+Theorem server_empty_psk_refuted :
+  exists s v, psk_sound_c v /\ is_psk (cl_suite v) = true /\
+    (forall bind chk, server12_all false bind chk s v = Accept) /\
+    cl_psk_nonempty v = false /\ cl_peer_knows_psk v = false /\ server_credential s v = false /\
+    (forall bind chk, server12_all true bind chk s v = Reject 80).
+Proof.
+  exists emptypsk_scfg, emptypsk_cview.
+  split; [intros H; discriminate H|]. split; [reflexivity|].
+  split; [intros [|] [|]; reflexivity|]. split; [reflexivity|]. split; [reflexivity|]. split; [reflexivity|].
+  intros [|] [|]; reflexivity.
+Qed.
+
+Theorem empty_psk_as_coded :
+  if psk_refuses_empty_key
+  then (forall c v, client12 c v = Accept -> cc_psk_cb c = true -> sv_psk_nonempty v = true) /\
+       (forall s v, server12 s v = Accept -> is_psk (cl_suite v) = true -> cl_psk_nonempty v = true)
+  else (exists c v, cc_psk_cb c = true /\ client12 c v = Accept /\ sv_psk_nonempty v = false /\ sv_peer_knows_psk v = false) /\
+       (exists s v, is_psk (cl_suite v) = true /\ server12 s v = Accept /\ cl_psk_nonempty v = false /\
+          cl_peer_knows_psk v = false).
+Proof.
+  unfold client12, client12_all, server12, server12_all. destruct psk_refuses_empty_key.
+  - split.
+    + intros c v H Hcb. apply andthen_accept in H. destruct H as [Hg H].
+      unfold client12_gen in H. apply andthen_accept in H. destruct H as [H3 _].
+      unfold client12_psk_gate in Hg. rewrite Hcb, H3 in Hg. cbn in Hg. apply check_accept in Hg. exact Hg.
+    + intros s v H Hp. apply andthen_accept in H. destruct H as [Hg H].
+      unfold server12_gen in H. apply wait_unless_accept in H. destruct H as [Hcke H].
+      apply andthen_accept in H. destruct H as [Hc _].
+      unfold server12_psk_gate in Hg. apply negb_false_iff in Hcke. rewrite Hcke, Hc, Hp in Hg. cbn in Hg.
+      apply check_accept in Hg. exact Hg.
+  - split.
+    + exists emptypsk_ccfg, emptypsk_sview. split; [reflexivity|].
+      split; [destruct client_verifies_ip_literal_name, verify_binds_scheme_to_key; reflexivity|].
+      split; reflexivity.
+    + exists emptypsk_scfg, emptypsk_cview. split; [reflexivity|].
+      split; [destruct verify_binds_scheme_to_key, server12_checks_client_finished; reflexivity|].
+      split; reflexivity.
+Qed.
+
 (* ================================================================ DTLS 1.3 *)
 
-(* server side (flight sent by the client): sound for every policy *)
-Theorem server13_accept_implies_checks_gen :
-  forall bind req k v, p_from_client v = true -> flight13_gen bind req k v = Accept -> server13_required k v = true.
+(* server side (flight sent by the client): sound for every policy, whatever the switches *)
+Theorem server13_accept_implies_checks_all :
+  forall ipname bind req k v, p_from_client v = true -> flight13_all ipname bind req k v = Accept ->
+    server13_required k v = true.
 Proof.
-  intros bind req [sk p hvpc hvc] [fc cm cn cp cvm sa cvv x vpc vc fv oid fk bl] Hfc. cbn in Hfc. subst fc.
-  unfold flight13_gen, flight13_certificate, flight13_certificate_verify_with, flight13_identity,
+  intros ipname bind req [sk p hvpc hvc nip po] [fc cm cn cp cvm sa cvv x vpc vc fv oid fk bl xs] Hfc. cbn in Hfc. subst fc.
+  unfold flight13_all, flight13_certificate, flight13_certificate_verify_all, flight13_identity,
     flight13_finished_with, server13_required, p_pop, p_has_certs.
-  cbn [k_skip_verify k_policy k_has_vpc k_has_vc p_from_client p_cert_msg p_certs_nonempty p_cert_parses p_cv_msg
-       p_scheme_allowed p_cv_valid p_x509_ok p_vpc_ok p_vc_ok p_fin_valid p_pss_oid_ok p_scheme_fits_key p_signed_by_leaf].
+  cbn [k_skip_verify k_policy k_has_vpc k_has_vc k_name_is_ip k_psk_only p_from_client p_cert_msg p_certs_nonempty
+       p_cert_parses p_cv_msg p_scheme_allowed p_cv_valid p_x509_ok p_vpc_ok p_vc_ok p_fin_valid p_pss_oid_ok
+       p_scheme_fits_key p_signed_by_leaf p_x509_sans_name].
   intros H. apply andthen_accept in H. destruct H as [_ H]. apply andthen_accept in H. destruct H as [Hcv Hf].
   destruct cvm, cm, cn; cbn in *; norm_accept; try discriminate;
     destruct fv; cbn in *; try discriminate;
@@ -378,81 +511,147 @@ Proof.
     destruct sa, cp, cvv, x, hvpc, vpc, hvc, vc; cbn in *; try discriminate; reflexivity.
 Qed.
 
+Theorem server13_accept_implies_checks_gen :
+  forall bind req k v, p_from_client v = true -> flight13_gen bind req k v = Accept -> server13_required k v = true.
+Proof. intros bind req k v. apply server13_accept_implies_checks_all. Qed.
+
 Theorem server13_accept_implies_checks :
   forall req k v, p_from_client v = true -> flight13_with req k v = Accept -> server13_required k v = true.
 Proof. intros req k v. apply server13_accept_implies_checks_gen. Qed.
 
-(* client side (flight sent by the server), with the F6 fix switched on: sound *)
-Theorem client13_fixed_accept_implies_checks_gen :
-  forall bind k v, p_from_client v = false -> flight13_gen bind true k v = Accept -> client13_required k v = true.
+(* client side (flight sent by the server), with the F6 fix and the configured name verified: sound *)
+Theorem client13_fixed_accept_implies_checks_all :
+  forall bind k v, p_from_client v = false -> flight13_all true bind true k v = Accept -> client13_required k v = true.
 Proof.
-  intros bind [sk p hvpc hvc] [fc cm cn cp cvm sa cvv x vpc vc fv oid fk bl] Hfc. cbn in Hfc. subst fc.
-  unfold flight13_gen, flight13_certificate, flight13_certificate_verify_with, flight13_identity,
+  intros bind [sk p hvpc hvc nip po] [fc cm cn cp cvm sa cvv x vpc vc fv oid fk bl xs] Hfc. cbn in Hfc. subst fc.
+  unfold flight13_all, flight13_certificate, flight13_certificate_verify_all, flight13_identity,
     flight13_finished_with, client13_required, p_pop, p_has_certs.
-  cbn [k_skip_verify k_policy k_has_vpc k_has_vc p_from_client p_cert_msg p_certs_nonempty p_cert_parses p_cv_msg
-       p_scheme_allowed p_cv_valid p_x509_ok p_vpc_ok p_vc_ok p_fin_valid p_pss_oid_ok p_scheme_fits_key p_signed_by_leaf].
+  cbn [k_skip_verify k_policy k_has_vpc k_has_vc k_name_is_ip k_psk_only p_from_client p_cert_msg p_certs_nonempty
+       p_cert_parses p_cv_msg p_scheme_allowed p_cv_valid p_x509_ok p_vpc_ok p_vc_ok p_fin_valid p_pss_oid_ok
+       p_scheme_fits_key p_signed_by_leaf p_x509_sans_name].
   intros H. apply andthen_accept in H. destruct H as [Hc H]. apply andthen_accept in H. destruct H as [Hcv Hf].
+  rewrite andb_false_r in *.
   destruct cvm, cm, cn; cbn in *; norm_accept; try discriminate;
     destruct fv; cbn in *; try discriminate;
     destruct sa, cp, cvv, sk, x, hvpc, vpc, hvc, vc; cbn in *; try discriminate; reflexivity.
 Qed.
 
-Theorem client13_fixed_accept_implies_checks :
-  forall k v, p_from_client v = false -> flight13_with true k v = Accept -> client13_required k v = true.
-Proof. intros k v. apply client13_fixed_accept_implies_checks_gen. Qed.
-
-(* as coded: whenever the server flight does carry a Certificate, all checks are made ... *)
-Theorem client13_accept_implies_checks_partial_gen :
+(* as coded (F6 not repaired): whenever the server flight does carry a Certificate, all checks are made ... *)
+Theorem client13_accept_implies_checks_partial_all :
   forall bind k v, p_from_client v = false -> p_cert_msg v = true ->
-    flight13_gen bind false k v = Accept -> client13_required k v = true.
+    flight13_all true bind false k v = Accept -> client13_required k v = true.
 Proof.
-  intros bind [sk p hvpc hvc] [fc cm cn cp cvm sa cvv x vpc vc fv oid fk bl] Hfc Hcm. cbn in Hfc, Hcm. subst fc cm.
-  unfold flight13_gen, flight13_certificate, flight13_certificate_verify_with, flight13_identity,
+  intros bind [sk p hvpc hvc nip po] [fc cm cn cp cvm sa cvv x vpc vc fv oid fk bl xs] Hfc Hcm. cbn in Hfc, Hcm. subst fc cm.
+  unfold flight13_all, flight13_certificate, flight13_certificate_verify_all, flight13_identity,
     flight13_finished_with, client13_required, p_pop, p_has_certs.
-  cbn [k_skip_verify k_policy k_has_vpc k_has_vc p_from_client p_cert_msg p_certs_nonempty p_cert_parses p_cv_msg
-       p_scheme_allowed p_cv_valid p_x509_ok p_vpc_ok p_vc_ok p_fin_valid p_pss_oid_ok p_scheme_fits_key p_signed_by_leaf].
+  cbn [k_skip_verify k_policy k_has_vpc k_has_vc k_name_is_ip k_psk_only p_from_client p_cert_msg p_certs_nonempty
+       p_cert_parses p_cv_msg p_scheme_allowed p_cv_valid p_x509_ok p_vpc_ok p_vc_ok p_fin_valid p_pss_oid_ok
+       p_scheme_fits_key p_signed_by_leaf p_x509_sans_name].
   intros H. apply andthen_accept in H. destruct H as [Hc H]. apply andthen_accept in H. destruct H as [Hcv Hf].
+  rewrite andb_false_r in *.
   destruct cvm, cn; cbn in *; norm_accept; try discriminate;
     destruct fv; cbn in *; try discriminate;
     destruct sa, cp, cvv, sk, x, hvpc, vpc, hvc, vc; cbn in *; try discriminate; reflexivity.
 Qed.
 
-Theorem client13_accept_implies_checks_partial :
-  forall k v, p_from_client v = false -> p_cert_msg v = true ->
-    flight13_with false k v = Accept -> client13_required k v = true.
-Proof. intros k v. apply client13_accept_implies_checks_partial_gen. Qed.
+(* B in DTLS 1.3: before the repair an IP-literal name was not verified *)
+Definition ipname_cfg13 : cfg13 := mk_cfg13 false NoClientCert false false true (* IP literal *) false.
+Definition ipname_pview : pview :=
+  mk_pview false true true true true true true false (* not valid for the configured IP *) true true true
+           true true true true (* chain valid when the name is ignored *).
+
+Theorem client13_ip_name_refuted :
+  exists k v, p_from_client v = false /\ k_skip_verify k = false /\ k_name_is_ip k = true /\ p_x509_ok v = false /\
+    (forall bind req, flight13_all false bind req k v = Accept) /\ client13_required k v = false /\
+    (forall bind req, flight13_all true bind req k v = Reject a_bad_certificate).
+Proof.
+  exists ipname_cfg13, ipname_pview.
+  split; [reflexivity|]. split; [reflexivity|]. split; [reflexivity|]. split; [reflexivity|].
+  split; [intros [|] [|]; reflexivity|]. split; [reflexivity|]. intros [|] [|]; reflexivity.
+Qed.
 
 (* F45 in DTLS 1.3, either direction: repaired verification binds scheme and key *)
 Theorem flight13_accept_binds_signature :
-  forall req k v, sig_sound_p v -> flight13_gen true req k v = Accept -> p_cv_msg v = true ->
+  forall ipname req k v, sig_sound_p v -> flight13_all ipname true req k v = Accept -> p_cv_msg v = true ->
     p_scheme_fits_key v = true /\ p_signed_by_leaf v = true.
 Proof.
-  intros req k v Hsound Ha Hcv. unfold flight13_gen in Ha.
+  intros ipname req k v Hsound Ha Hcv. unfold flight13_all in Ha.
   apply andthen_accept in Ha. destruct Ha as [_ Ha]. apply andthen_accept in Ha. destruct Ha as [Ha _].
-  unfold flight13_certificate_verify_with in Ha. rewrite Hcv in Ha. cbn [negb] in Ha.
+  unfold flight13_certificate_verify_all in Ha. rewrite Hcv in Ha. cbn [negb] in Ha.
   norm_accept. cbn [negb orb] in *.
   match goal with H : p_cert_parses v && p_cv_valid v = true |- _ => apply andb_true_iff in H; destruct H as [_ Hsig] end.
   split; auto.
 Qed.
 
-Definition f45_cfg13 : cfg13 := mk_cfg13 false RequireAndVerifyClientCert false false.
+Definition f45_cfg13 : cfg13 := mk_cfg13 false RequireAndVerifyClientCert false false false false.
 Definition f45_pview (from_client : bool) : pview :=
   mk_pview from_client true true true true true true (* the ECDSA routine accepts *) true true true true
-           true false (* scheme does not fit the key *) false (* not by the leaf key *).
+           true false (* scheme does not fit the key *) false (* not by the leaf key *) true.
 
 Theorem flight13_scheme_confusion_refuted :
   forall from_client, exists k v, p_from_client v = from_client /\ sig_sound_p v /\ k_skip_verify k = false /\
     k_policy k = RequireAndVerifyClientCert /\ p_x509_ok v = true /\
-    (forall req, flight13_gen false req k v = Accept) /\
+    (forall ipname req, flight13_all ipname false req k v = Accept) /\
     p_scheme_fits_key v = false /\ p_signed_by_leaf v = false /\ flight13_credential k v = false.
 Proof.
-  intros fc. exists f45_cfg13, (f45_pview fc). repeat split; try reflexivity.
-  - intros H. discriminate H.
-  - intros [|]; destruct fc; reflexivity.
-  - destruct fc; reflexivity.
+  intros fc. exists f45_cfg13, (f45_pview fc).
+  split; [reflexivity|]. split; [intros H; discriminate H|]. split; [reflexivity|]. split; [reflexivity|].
+  split; [reflexivity|]. split; [intros [|] [|]; destruct fc; reflexivity|].
+  split; [reflexivity|]. split; [reflexivity|]. destruct fc; reflexivity.
 Qed.
 
-(* the statement that holds of the code as modelled, whichever way the F45 switch is set *)
+(* F6 (known finding): a server flight [EncryptedExtensions; Finished] with no Certificate and no
+   CertificateVerify is accepted by a client that verifies chains (InsecureSkipVerify = false) *)
+Definition f6_cfg : cfg13 := mk_cfg13 false NoClientCert false false false false.
+Definition f6_view : pview :=
+  mk_pview false (* from server *) false (* no Certificate *) false false false (* no CertificateVerify *)
+           false false false false false true (* Finished verifies *) true false false false.
+
+Theorem client13_unauthenticated_server_refuted :
+  exists k v, p_from_client v = false /\ k_skip_verify k = false /\
+    p_cert_msg v = false /\ p_cv_msg v = false /\
+    (forall ipname bind, flight13_all ipname bind false k v = Accept) /\ client13_required k v = false.
+Proof.
+  exists f6_cfg, f6_view.
+  split; [reflexivity|]. split; [reflexivity|]. split; [reflexivity|]. split; [reflexivity|].
+  split; [intros [|] [|]; reflexivity|reflexivity].
+Qed.
+
+(* D (known finding, not repaired): a client that was given a PSK only is established by a DTLS 1.3
+   server on its certificate alone (system roots, no name) - the PSK plays no part *)
+Definition pskonly_cfg13 : cfg13 := mk_cfg13 false NoClientCert false false false true (* PSK-only client *).
+Definition pskonly_pview : pview :=
+  mk_pview false true true true true true true true (* chain valid under the system roots, no name to check *)
+           true true true true true true true.
+
+Theorem client13_psk_only_refuted :
+  exists k v, p_from_client v = false /\ k_psk_only k = true /\ sig_sound_p v /\
+    (forall ipname bind req, flight13_top false ipname bind req k v = Accept) /\
+    flight13_credential k v = false /\
+    (forall ipname bind req, flight13_top true ipname bind req k v = Reject a_handshake_failure).
+Proof.
+  exists pskonly_cfg13, pskonly_pview.
+  split; [reflexivity|]. split; [reflexivity|]. split; [intros _ _; reflexivity|].
+  split; [intros [|] [|] [|]; reflexivity|]. split; [reflexivity|]. intros [|] [|] [|]; reflexivity.
+Qed.
+
+Theorem flight13_top_refusing_psk_only :
+  forall ipname bind req k v, flight13_top true ipname bind req k v = Accept ->
+    p_from_client v = true \/ k_psk_only k = false.
+Proof.
+  intros ipname bind req k v H. unfold flight13_top in H. apply andthen_accept in H. destruct H as [H _].
+  unfold client13_psk_gate in H. apply check_accept in H. cbn [negb orb] in H.
+  destruct (p_from_client v); [left; reflexivity|]. destruct (k_psk_only k); [discriminate H|right; reflexivity].
+Qed.
+
+Lemma flight13_inv :
+  forall k v, flight13 k v = Accept ->
+    client13_psk_gate client13_refuses_psk_only k v = Accept /\
+    flight13_all client_verifies_ip_literal_name verify_binds_scheme_to_key client13_requires_server_certificate k v = Accept.
+Proof. intros k v H. unfold flight13, flight13_top in H. apply andthen_accept in H. exact H. Qed.
+
+(* ================================================================ the code as it stands, per switch *)
+
 Theorem scheme_binding_as_coded :
   if verify_binds_scheme_to_key
   then (forall c v, sig_sound_s v -> client12 c v = Accept -> sv_suite v = SCert ->
@@ -467,45 +666,67 @@ Theorem scheme_binding_as_coded :
           server12 s v = Accept /\ cl_signed_by_leaf v = false) /\
        (exists k v, sig_sound_p v /\ k_skip_verify k = false /\ flight13 k v = Accept /\ p_signed_by_leaf v = false).
 Proof.
-  unfold client12, server12, server12_with, flight13, flight13_with.
+  unfold client12, client12_all, server12, server12_all, server12_with, flight13, flight13_top.
   destruct verify_binds_scheme_to_key.
   - split; [|split].
-    + intros c v H H0 H1. destruct (client_accept_binds_signature c v H H0 H1) as (A & B & _). auto.
-    + intros s v H H0 H1. destruct (server_accept_binds_signature _ s v H H0 H1) as (A & B & _). auto.
-    + intros k v H H0 H1. exact (flight13_accept_binds_signature _ k v H H0 H1).
+    + intros c v Hs H Hsu. apply andthen_accept in H. destruct H as [_ H].
+      unfold client12_gen in H. apply andthen_accept in H. destruct H as [_ H].
+      apply andthen_accept in H. destruct H as [H _]. unfold client12_init_gen in H. rewrite Hsu in H.
+      apply andthen_accept in H. destruct H as [_ H]. apply andthen_accept in H. destruct H as [H _].
+      apply check_accept in H. cbn [negb orb] in H.
+      apply andb_true_iff in H. destruct H as [H Hsig]. apply andb_true_iff in H. destruct H as [_ Hfit]. auto.
+    + intros s v Hs H Hg. apply andthen_accept in H. destruct H as [_ H].
+      unfold server12_gen in H. apply wait_unless_accept in H. destruct H as [_ H].
+      apply andthen_accept in H. destruct H as [H _]. unfold server12_certs_with in H. rewrite Hg in H. cbn [negb] in H.
+      destruct (cl_cv_msg v); [|discriminate H].
+      destruct (cl_scheme_allowed v); cbn in H; [|discriminate H].
+      destruct (cl_cert_parses v); cbn in H; [|discriminate H].
+      destruct (cl_scheme_fits_key v) eqn:Hfit; cbn in H; [|discriminate H].
+      destruct (cl_cv_valid v) eqn:Hsig; cbn in H; [|discriminate H]. auto.
+    + intros k v Hs H Hcv. apply andthen_accept in H. destruct H as [_ H].
+      exact (flight13_accept_binds_signature _ _ k v Hs H Hcv).
   - split; [|split].
     + exists f45_ccfg, f45_sview.
-      split; [intros H; discriminate H|]. repeat (split; [reflexivity|]). reflexivity.
+      split; [intros H; discriminate H|]. split; [reflexivity|]. split; [reflexivity|].
+      split; [destruct psk_refuses_empty_key, client_verifies_ip_literal_name; reflexivity|reflexivity].
     + exists f45_scfg, f45_cview.
       split; [intros H; discriminate H|]. split; [reflexivity|].
-      split; [destruct server12_checks_client_finished; reflexivity|reflexivity].
+      split; [destruct psk_refuses_empty_key, server12_checks_client_finished; reflexivity|reflexivity].
     + exists f45_cfg13, (f45_pview false).
       split; [intros H; discriminate H|]. split; [reflexivity|].
-      split; [destruct client13_requires_server_certificate; reflexivity|reflexivity].
+      split; [destruct client13_refuses_psk_only, client_verifies_ip_literal_name, client13_requires_server_certificate;
+              reflexivity|reflexivity].
 Qed.
 
-(* ... but a server flight [EncryptedExtensions; Finished] with no Certificate and no
-   CertificateVerify is accepted by a client that verifies chains (InsecureSkipVerify = false):
-   the peer is unauthenticated.  Defect F6 (known finding). *)
-Definition f6_cfg : cfg13 := mk_cfg13 false NoClientCert false false.
-Definition f6_view : pview :=
-  mk_pview false (* from server *) false (* no Certificate *) false false false (* no CertificateVerify *)
-           false false false false false true (* Finished verifies *) true false false.
-
-Theorem client13_unauthenticated_server_refuted :
-  exists k v, p_from_client v = false /\ k_skip_verify k = false /\
-    p_cert_msg v = false /\ p_cv_msg v = false /\
-    flight13_with false k v = Accept /\ client13_required k v = false.
-Proof. exists f6_cfg, f6_view. repeat split. Qed.
-
-(* the verdict of the code as it stands, whichever way the switches are set *)
+(* F6 *)
 Theorem client13_as_coded :
-  if client13_requires_server_certificate
+  if client13_requires_server_certificate && client_verifies_ip_literal_name
   then forall k v, p_from_client v = false -> flight13 k v = Accept -> client13_required k v = true
-  else exists k v, p_from_client v = false /\ k_skip_verify k = false /\ p_cert_msg v = false /\
+  else exists k v, p_from_client v = false /\ k_skip_verify k = false /\
          flight13 k v = Accept /\ client13_required k v = false.
 Proof.
-  unfold flight13. destruct client13_requires_server_certificate eqn:E.
-  - exact client13_fixed_accept_implies_checks.
-  - exists f6_cfg, f6_view. repeat split.
+  unfold flight13, flight13_top.
+  destruct client13_requires_server_certificate, client_verifies_ip_literal_name; cbn [andb].
+  - intros k v Hfc H. apply andthen_accept in H. destruct H as [_ H].
+    exact (client13_fixed_accept_implies_checks_all _ k v Hfc H).
+  - exists ipname_cfg13, ipname_pview. split; [reflexivity|]. split; [reflexivity|].
+    split; [destruct client13_refuses_psk_only, verify_binds_scheme_to_key; reflexivity|reflexivity].
+  - exists f6_cfg, f6_view. split; [reflexivity|]. split; [reflexivity|].
+    split; [destruct client13_refuses_psk_only, verify_binds_scheme_to_key; reflexivity|reflexivity].
+  - exists f6_cfg, f6_view. split; [reflexivity|]. split; [reflexivity|].
+    split; [destruct client13_refuses_psk_only, verify_binds_scheme_to_key; reflexivity|reflexivity].
+Qed.
+
+(* D *)
+Theorem psk_only_as_coded :
+  if client13_refuses_psk_only
+  then forall k v, flight13 k v = Accept -> p_from_client v = true \/ k_psk_only k = false
+  else exists k v, p_from_client v = false /\ k_psk_only k = true /\ flight13 k v = Accept /\
+         flight13_credential k v = false.
+Proof.
+  unfold flight13. destruct client13_refuses_psk_only.
+  - intros k v. apply flight13_top_refusing_psk_only.
+  - exists pskonly_cfg13, pskonly_pview. split; [reflexivity|]. split; [reflexivity|].
+    split; [destruct client_verifies_ip_literal_name, verify_binds_scheme_to_key, client13_requires_server_certificate;
+            reflexivity|reflexivity].
 Qed.
